@@ -151,7 +151,9 @@ def render(inst):
         a("    fault(%d, %d);" % inst.fault)
         return render_fault(inst, L)
     held = set(inst.held)
-    live0 = inst.reach(held)
+    # handles that a callback releases are not "held by the program for the whole scenario"
+    released_by_cb = {t for (act, t) in list(inst.fin_act.values()) + list(inst.drop_act.values()) if act == "ReleaseHeld"}
+    live0 = inst.reach(held - released_by_cb)
     a("    let e0 = execs();")
     # phase 1
     if inst.script == "collect":
@@ -161,7 +163,7 @@ def render(inst):
         i = int(inst.script[7:])
         a("    release(%d);" % i)
         held = held - {i}
-        live0 = inst.reach(held)
+        live0 = inst.reach(held - released_by_cb)
     elif inst.script == "none":
         pass
     a("    check_safety(%d, %s, true);" % (inst.n, arr(live0)))
@@ -362,6 +364,14 @@ def finalizer_family(tier, rng):
                     o2 = list(reversed(order))
                     out.append(Inst(n, e, set(), o2, fin_act={who: (act, 0)}, family="fin_%s_%s" % (act.lower(), nm),
                                     props=["C01", "C03", "C04", "C05", "C06", "C11", "C12"], tier="thorough"))
+    # a finalizer (or destructor) releases the last outside pointer to ANOTHER garbage structure: that structure is
+    # buffered during the pass and must survive the re-buffering of the finalized set to be reclaimed later
+    for kind in ("fin", "drop"):
+        for tail, e in (("cycle", [(0, "s0", 0), (1, "s0", 2), (2, "s0", 1)]), ("self", [(0, "s0", 0), (1, "s0", 1)]), ("pair", [(0, "s0", 0), (0, "s1", 0), (1, "s0", 2), (2, "s0", 1)])):
+            n = 3 if tail != "self" else 2
+            order = [("release", 0)] + [("release", i) for i in range(2, n)]
+            kw = {("fin_act" if kind == "fin" else "drop_act"): {0: ("ReleaseHeld", 1)}}
+            out.append(Inst(n, e, {1}, order, family="%s_releaseheld_%s" % (kind, tail), props=["C01", "C02", "C03", "C05", "C06", "C11"], **kw))
     # mixed sets: some members already finalized (history), another member's finalizer resurrects — the
     # finalize-or-deallocate decision must consider EVERY member of the set, in whatever order it is visited
     for nm, e, n in [("two_cycle", NAMED2["two_cycle"], 2), ("lasso", NAMED3["lasso"], 3), ("ring", NAMED3["ring"], 3), ("shared_tail", NAMED3["shared_tail"], 3)]:
@@ -489,8 +499,8 @@ def select(insts, cap, seed):
         return insts
     # the reference-count-path scenarios (1-2 objects, a few seconds each) are always kept: they are
     # the only ones that exercise callbacks re-entering the API from a plain Cc::drop
-    must = [i for i in insts if i.family.startswith(("rcfin", "rcdrop", "weak_rc", "finmix_resurrectself_two_cycle"))]
-    insts = [i for i in insts if not i.family.startswith(("rcfin", "rcdrop", "weak_rc", "finmix_resurrectself_two_cycle"))]
+    must = [i for i in insts if i.family.startswith(("rcfin", "rcdrop", "weak_rc", "finmix_resurrectself_two_cycle", "fin_releaseheld"))]
+    insts = [i for i in insts if not i.family.startswith(("rcfin", "rcdrop", "weak_rc", "finmix_resurrectself_two_cycle", "fin_releaseheld"))]
     cap = max(0, cap - len(must))
     rng = random.Random(seed)
     def coarse(f):
